@@ -62,7 +62,66 @@ func c02Consumption(c *Ctx, p *Prog, pi *parserInfo) {
 			c.Check(good, "C02-R9", key, pos, fmt.Sprintf("ReadBytes(%#x) on the path where the byte just examined equals the delimiter", d))
 			continue
 		}
-		if m != "ReadByte" {
+		// buf.Next(n): the same idioms with the count as one expression instead of a ReadByte loop
+		nextConst := -1
+		if m == "Next" && len(sites) == 1 && len(cc.Args) == 2 {
+			n := cc.Args[1]
+			switch {
+			case func() bool { _, ok := constInt(n); return ok }():
+				k, _ := constInt(n)
+				nextConst = int(k) // checked below like k straight-line ReadByte calls
+			case func() bool { // scan index + 1: the whole matched sequence
+				bo, ok := n.(*ssa.BinOp)
+				if !ok || bo.Op != token.ADD {
+					return false
+				}
+				k, isK := constInt(bo.Y)
+				return isK && k == 1 && (isRangeIndexOver(bo.X, input) || isRangeIndexValue(bo.X, input))
+			}():
+				c.OK("C02-R9", key, pos, "Next(scan index + 1): the whole matched sequence")
+				continue
+			case func() bool { // len(P) under HasPrefix(input, P)
+				call, ok := n.(*ssa.Call)
+				if !ok {
+					return false
+				}
+				bi, isB := call.Call.Value.(*ssa.Builtin)
+				if !isB || bi.Name() != "len" {
+					return false
+				}
+				pfx := call.Call.Args[0]
+				for _, g := range rawGuardsAt(b) {
+					if gc, okC := g.Cond.(*ssa.Call); okC && g.Positive && (calleeName(&gc.Call) == "bytes.HasPrefix") && len(gc.Call.Args) == 2 && sliceRoot(gc.Call.Args[0]) == input && sameValue(gc.Call.Args[1], pfx) {
+						if _, isSl := gc.Call.Args[0].(*ssa.Slice); !isSl {
+							return true
+						}
+					}
+				}
+				return false
+			}():
+				c.OK("C02-R9", key, pos, "Next(len(P)) under HasPrefix(input, P)")
+				continue
+			case isTransformNSrc(n, 0):
+				// decoder count, with the progress condition: used only where the decoder produced output
+				produced := false
+				if ex, isEx := n.(*ssa.Extract); isEx {
+					for _, g := range rawGuardsAt(b) {
+						if bo, okB := g.Cond.(*ssa.BinOp); okB {
+							if e0, okE := bo.X.(*ssa.Extract); okE && e0.Index == 0 && e0.Tuple == ex.Tuple {
+								if k, isK := constInt(bo.Y); isK && k == 0 && ((bo.Op == token.NEQ && g.Positive) || (bo.Op == token.EQL && !g.Positive) || (bo.Op == token.GTR && g.Positive)) {
+									produced = true
+								}
+							}
+						}
+					}
+				}
+				c.Check(produced, "C02-R9", key, pos, "Next(nSrc): as many bytes as the decoder reports consumed, where it produced output")
+				continue
+			default:
+				c.Undecided("C02-R9", key, pos, "consumption through Next("+valName(n)+") is not a recognised idiom")
+				continue
+			}
+		} else if m != "ReadByte" {
 			c.Undecided("C02-R9", key, pos, "consumption through "+m+" is not a recognised idiom")
 			continue
 		}
@@ -86,6 +145,9 @@ func c02Consumption(c *Ctx, p *Prog, pi *parserInfo) {
 		}
 		// fixed number of reads
 		k := len(sites)
+		if nextConst >= 0 {
+			k = nextConst
+		}
 		// bytes a parser removes without a decoder's say-so were recognised as something: an
 		// event is appended on the same path (dropping input silently is not a parser's business)
 		{
@@ -1047,6 +1109,40 @@ func checkStrictDispatch(c *Ctx, p *Prog, rule string) {
 				}
 				return bo.X, true
 			}
+			// the dispatch need not be the first thing in the loop body (a hoisted predicate may come
+			// first): take the longest chain of comparisons of one loaded byte with constants in which each
+			// comparison is the no-match successor of the one before
+			isFalseSucc := map[*ssa.BasicBlock]bool{}
+			for b := range body {
+				if v, isT := byteTest(b); isT {
+					if v2, isT2 := byteTest(b.Succs[1]); isT2 && v2 == v {
+						isFalseSucc[b.Succs[1]] = true
+					}
+				}
+			}
+			var head *ssa.BasicBlock
+			best := 0
+			for b := range body {
+				v, isT := byteTest(b)
+				if !isT || isFalseSucc[b] {
+					continue
+				}
+				length := 0
+				for x := b; ; x = x.Succs[1] {
+					v2, isT2 := byteTest(x)
+					if !isT2 || v2 != v {
+						break
+					}
+					length++
+				}
+				if length > best || (length == best && head != nil && b.Index < head.Index) {
+					best, head = length, b
+				}
+			}
+			if head == nil || best < 4 {
+				continue
+			}
+			entry = head
 			cur, ok := byteTest(entry)
 			if !ok {
 				continue
@@ -1136,4 +1232,14 @@ func checkGenuineReplacementChar(c *Ctx, p *Prog, fn *ssa.Function, rule string)
 	if n == 0 {
 		c.Undecided(rule, fn.Name()+":U+FFFD-test", p.pos(fn.Pos()), "no comparison of the decoded rune with U+FFFD found")
 	}
+}
+
+// isRangeIndexValue: v is the index variable of a `for i, c := range input` / `for i := range input`
+// loop as it is seen inside the loop body (go/ssa names it through the rangeindex increment).
+func isRangeIndexValue(v ssa.Value, input ssa.Value) bool {
+	bo, ok := v.(*ssa.BinOp)
+	if ok && isRangeIndex(bo) {
+		return isRangeIndexOver(v, input)
+	}
+	return false
 }
